@@ -1805,7 +1805,16 @@ func (p *parser) scanCharSet(caseInsensitive, scanOnly bool) (*CharSet, error) {
 
 			case '-':
 				if !scanOnly {
-					cc.addRange(ch, ch)
+					if inRange {
+						// an escaped hyphen can end a range: [+-\-]
+						if chPrev > ch {
+							return nil, p.getErr(ErrReversedCharRange, chPrev, ch)
+						}
+						cc.addRange(chPrev, ch)
+						inRange = false
+					} else {
+						cc.addRange(ch, ch)
+					}
 				}
 				continue
 
